@@ -504,7 +504,12 @@ impl<'a> Renderer<'a> {
                 self.line(&t, true)
             }
             Op::Filler(k) => {
-                let t = match k % 6 {
+                let t = match k % 11 {
+                    6 => "Cut \"a,b,c\" into Pieces with \",\"",
+                    7 => "Cast \"42\" into Numeral",
+                    8 => "Turn up Junk",
+                    9 => "Turn Junk around",
+                    10 => "Let Junk be Junk over 4",
                     0 => "Put 1 plus 2 into Junk",
                     1 => "Rock Stack with 1, 2",
                     2 => "Roll Stack",
